@@ -3,7 +3,7 @@
 From Coq Require Import QArith Reals List Permutation.
 Import ListNotations.
 From Coq Require Import Relations.
-From TT Require Import Num NumR Tree M_like M_data M_like_data P_like P_invariance P_reroot.
+From TT Require Import Num NumR Tree M_like M_data M_like_data P_like P_invariance P_taxa_order P_reroot.
 Open Scope R_scope.
 
 (* children of any node can be swapped *)
@@ -19,6 +19,39 @@ Theorem C02_perm_sequences : forall taxa seqs seqs',
   rows_in_taxa_order taxa seqs = rows_in_taxa_order taxa seqs'.
 Proof. exact rows_perm_sequences. Qed.
 Print Assumptions C02_perm_sequences.
+
+(* THE ORDER OF THE TAXA LIST.  The position of a taxon in the list is the index of its leaf (rename), the rows of
+   the alignment are listed in that order and compressed into patterns in that order, and the per-node tables of
+   transition matrices are indexed by it: all three change with the order.  With the branch data keyed by what they
+   belong to ([leafmat k name] for the branch above the leaf called name, [intmat k i] for internal node i, whose
+   number does not depend on the order; [mats_for] lays them out as the tables the likelihood takes for a given
+   order), ANY permutation of the taxa list gives the same log-likelihood: every tree, any number of rate
+   categories, tip partials (with / without ambiguities) or tip states, nucleotides and amino acids.  Hypotheses:
+   every leaf name is in the list, the list has as many entries as the tree has leaves, the sequences have equal
+   lengths (the number of columns is read off the first row). *)
+Theorem C02_perm_taxa : forall leafmat intmat m taxa taxa' seqs t freqs K props,
+  NoDup taxa -> Permutation taxa taxa' ->
+  (forall x, In x (leaf_names t) -> In x taxa) ->
+  length taxa = leaves t ->
+  (forall x y, In x taxa -> In y taxa -> length (assoc x seqs) = length (assoc y seqs)) ->
+  loglik_nuc NumR m taxa' seqs t freqs (mats_for leafmat intmat taxa' K (2 * leaves t - 1)) props
+  = loglik_nuc NumR m taxa seqs t freqs (mats_for leafmat intmat taxa K (2 * leaves t - 1)) props.
+Proof. exact taxa_order_invariance_nuc. Qed.
+Print Assumptions C02_perm_taxa.
+Theorem C02_perm_taxa_amino_acids : forall leafmat intmat m taxa taxa' seqs t freqs K props,
+  NoDup taxa -> Permutation taxa taxa' ->
+  (forall x, In x (leaf_names t) -> In x taxa) ->
+  length taxa = leaves t ->
+  (forall x y, In x taxa -> In y taxa -> length (assoc x seqs) = length (assoc y seqs)) ->
+  loglik_aa NumR m taxa' seqs t freqs (mats_for leafmat intmat taxa' K (2 * leaves t - 1)) props
+  = loglik_aa NumR m taxa seqs t freqs (mats_for leafmat intmat taxa K (2 * leaves t - 1)) props.
+Proof. exact taxa_order_invariance_aa. Qed.
+Print Assumptions C02_perm_taxa_amino_acids.
+(* non-vacuity: ((2,0),1) with taxa [0;1;2] vs [2;0;1]: the hypotheses hold, the indexed trees, the rows and the
+   compressed patterns all differ, the log-likelihoods are equal *)
+Example C02_perm_taxa_example_hyps := taxa_order_example_hyps.
+Example C02_perm_taxa_example_differs := taxa_order_example_differs.
+Example C02_perm_taxa_example := taxa_order_example.
 
 (* any permutation of the alignment columns, and merging identical columns into weighted
    patterns, leaves the sum over sites unchanged (for any per-column function) *)
